@@ -537,7 +537,17 @@ fn opt_case(cases: &[(usize, usize, usize)]) -> Option<String> {
             if lang == "scala" && dflt && depth == 0 { continue; }
             // Python wraps a bare `datetime` / `bytes` member in Annotated[.., validators] (custom (de)serialisers): not part of this oracle;
             // Optional[datetime] has no such wrapper and is checked
-            if lang == "python" && (t == "datetime" || t == "bytes") { continue; }
+            if lang == "python" && (t == "datetime" || t == "bytes") {
+                // .. the wrapper goes around the whole member type: the optional marker (`Optional[..]` for serde(default) on a non-Option) stays
+                // inside, around the type text, and `= Field(.., default=None)` follows as for any other member
+                let ty = if dflt && depth == 0 { format!("Optional[{}]", t) } else { t.clone() };
+                let head = format!("    {}: Annotated[{}, BeforeValidator(", name, ty);
+                let mut decs: Vec<String> = vec![]; if key != name { decs.push(format!("alias=\"{}\"", key)); } if depth >= 1 || dflt { decs.push("default=None".into()); }
+                let tail = if decs.is_empty() { ")]".to_string() } else { format!(")] = Field({})", decs.join(", ")) };
+                let n = out.lines().filter(|l| l.starts_with(&head) && l.ends_with(&tail)).count();
+                if n < 2 { return Some(format!("python: member `{} {}: {}` (custom (de)serialiser) must be written `{}..{}` (Optional[..] inside the Annotated[..] wrapper when bare serde(default) stands on a non-Option, type text unchanged) - found {} time(s) instead of 2", OPT_ATTRS[*at].0, name, src_ty, head.trim(), tail, n)); }
+                continue;
+            }
             let go_name = if lang == "go" { let mut c = name.chars(); format!("\t{}{}", c.next().unwrap().to_uppercase(), c.as_str()) } else { String::new() };
             for want in opt_member(lang, &name, &key, &t, depth >= 1, depth >= 2, dflt) {
                 let want = if lang == "go" { format!("{}{}", go_name, want) } else { want };
